@@ -36,8 +36,13 @@ def check(rep):
     PR.rule_ident_positions(ctx)
     # the evaluator execs the text with separate globals/locals: a helper defined at the module level of the generated text
     # lands in the locals dict, where the generated function (whose globals are the evaluator module's) cannot see it
-    info = PR.trace_generated_text(ctx, ctx.mod("experiment_evaluator.py"),
-                                   ctx.mod("experiment_evaluator.py").get_method("ExperimentEvaluator", "recompile"))
+    from . import liferules as LF
+    life = LF.lifecycle(ctx)
+    if not life["undecided"]:
+        info = {"expose": life["facts"].get("expose"), "problems": []}
+    else:
+        info = PR.trace_generated_text(ctx, ctx.mod("experiment_evaluator.py"),
+                                       ctx.mod("experiment_evaluator.py").get_method("ExperimentEvaluator", "recompile"))
     if info.get("expose") is None:
         import ast as _ast
         init = ctx.mod("codegen/python/python_generator.py").get_method("PythonCodeGen", "__init__")
